@@ -420,6 +420,19 @@ func (e Env) Insertion(r *rand.Rand, class string, depth, batch int) (c *Ins, ok
 	return c, true
 }
 
+// InsertionWithIds builds a valid append of the given commitments into a random pre-state.
+func (e Env) InsertionWithIds(r *rand.Rand, depth int, ids []*big.Int) (*Ins, bool) {
+	t := e.RandomTree(r, depth)
+	s, ok := freeRun(r, t, len(ids), r.Intn(4))
+	if !ok {
+		return nil, false
+	}
+	c := &Ins{Class: "valid/given-commitments", Depth: depth, Pre: t.Root(), Ids: ids, Start: new(big.Int).SetUint64(s)}
+	c.Proofs, c.Post, _ = honestInsertion(t, s, ids)
+	c.Valid = ref.ValidInsertion(e.H, e.Mod, depth, c.Start, c.Pre, c.Post, c.Ids, c.Proofs)
+	return c, true
+}
+
 // DelClasses lists the workload classes of Deletion().
 var DelClasses = []string{
 	"valid/members", "valid/mixed-padding", "valid/all-padding", "valid/padding-garbage", "valid/padding-genuine-proof", "valid/padding-extremes",
